@@ -87,6 +87,18 @@ class Run:
         if len(self.samples) < 6:
             self.samples.append(s)
 
+    def known_finding(self, kfid, case, reason):
+        """The specification explains this case only by the known-finding action `kfid`.  Listed (open, for this
+        property) => KNOWN-FINDING line, once; not listed => an ordinary violation."""
+        for k in self.known:
+            if k["id"] == kfid:
+                if kfid not in self.known_hits:
+                    self.known_hits[kfid] = k
+                    print("KNOWN-FINDING: property=%s %s %s" % (self.prop, kfid, k.get("what", "")))
+                self.extra["known_finding_cases"] = self.extra.get("known_finding_cases", 0) + 1
+                return
+        self.violation(case, reason + " (matches the unlisted finding pattern %s)" % kfid)
+
     def violation(self, case, reason):
         """Record a violation: writes the replay file and prints the VIOLATION line."""
         for k in self.known:
